@@ -13,7 +13,7 @@ KINDS = ["succeed", "fail-retry-left", "fail-exhausted", "recurring-succeed"]
 _ITERS = {}
 
 
-def _run_stop(S, kind, n_msgs, with_result, k, g, d=Fraction(5, 1000)):
+def _run_stop(S, kind, n_msgs, with_result, k, g, d=Fraction(5, 1000), tasks_limit=2):
     from repid import Job, Router, Worker
     from repid.converter import BasicConverter
 
@@ -48,7 +48,7 @@ def _run_stop(S, kind, n_msgs, with_result, k, g, d=Fraction(5, 1000)):
                     q.simple.put_nowait(m)
         w.rec.calls.clear()
         worker = Worker(routers=[r], handle_signals=[signal.SIGTERM], _connection=w.conn,
-                        graceful_shutdown_time=g, tasks_limit=2)
+                        graceful_shutdown_time=g, tasks_limit=tasks_limit)
         fired = {}
 
         def hook(lp):
@@ -82,15 +82,15 @@ def _run_stop(S, kind, n_msgs, with_result, k, g, d=Fraction(5, 1000)):
     return out
 
 
-def h03_stop(S, n_msgs=1, kinds=(0, 1, 2, 3), max_step=90):
+def h03_stop(S, n_msgs=1, kinds=(0, 1, 2, 3), max_step=90, tasks_limit=2, results=(False, True)):
     kind = kinds[S.pick("actor_kind", len(kinds))]
-    with_result = S.flag("store_result")
+    with_result = results[S.pick("store_result", len(results))]
     g = S.real("graceful_period", 0, Fraction(8, 1000))
     S.tag("kind", KINDS[kind])
     K = max_step
     k = S.pick("stop_at_loop_step", K) + 1
     try:
-        out = _run_stop(S, kind, n_msgs, with_result, k=k, g=g)
+        out = _run_stop(S, kind, n_msgs, with_result, k=k, g=g, tasks_limit=tasks_limit)
     except Deadlock:
         S.check("run-returns", False, info="deadlock")
         return
@@ -198,6 +198,106 @@ def h03_redis_death(S):
                 info=f"at death: {at_death}, successor got {out['got']}")
 
 
+def h03_rabbit_stop(S, max_step=120, qos_turns=(1, 3)):
+    """Worker.run() on the fake AMQP channel (pause/unpause are real round trips), stop signal at every loop step."""
+    from repid import Job, Router, Worker
+    from repid.converter import BasicConverter
+
+    kind = S.pick("actor_kind", 2)        # succeed / fail with retry left
+    n_msgs = 3
+    k = S.pick("stop_at_loop_step", max_step) + 1
+    turns = qos_turns[S.pick("basic_qos_round_trip_turns", len(qos_turns))]
+    g = Fraction(20, 1000)
+    S.tag("kind", KINDS[kind])
+    out = {}
+    runs = []
+
+    async def main(loop):
+        w = World(backend="rabbit")
+        await w.open(queues=("qa", "qb"), record=False)
+        from harness.common import observe_consumers
+        out["consumer_log"] = observe_consumers(w.broker)
+        orig_qos = type(w.ch).basic_qos
+
+        async def slow_qos(ch, **kw):
+            for _ in range(turns - 1):
+                await asyncio.sleep(0)
+            return await orig_qos(ch, **kw)
+
+        for ch in w.srv.channels:
+            ch.basic_qos = slow_qos.__get__(ch)
+        r = Router()
+        for qn in ("qa", "qb"):
+            @r.actor(name="job_" + qn, queue=qn, converter=BasicConverter, retry_policy=lambda retry_number=1: real_timedelta(seconds=30))
+            async def job(i: int):
+                runs.append(i)
+                await asyncio.sleep(Fraction(5, 1000))
+                if kind:
+                    raise ValueError("x")
+
+        for i in range(n_msgs):
+            qn = ("qa", "qb")[i % 2]
+            await Job("job_" + qn, queue=qn, args={"i": i}, id_=f"m{i}", retries=1 if kind == 1 else 0, _connection=w.conn).enqueue()
+        worker = Worker(routers=[r], handle_signals=[signal.SIGTERM], _connection=w.conn, graceful_shutdown_time=g, tasks_limit=2)
+        fired = {}
+        base = loop.iters
+
+        def hook(lp):
+            if lp.iters == base + k and "t" not in fired:
+                if lp.fire_signal():
+                    fired["t"] = lp.time()
+
+        # an idle RabbitMQ consumer schedules nothing, so the run is ended by a timer if the chosen step came too early
+        loop.call_later(2, lambda: None if "t" in fired else loop.fire_signal())
+        prev = loop.iter_hook
+        loop.iter_hook = hook
+        try:
+            await asyncio.wait_for(worker.run(), timeout=60)
+            out["returned"] = True
+        except asyncio.TimeoutError:
+            out["returned"] = False
+        out["elapsed"] = loop.time() - fired["t"] if "t" in fired else None
+        loop.iter_hook = prev
+        await asyncio.sleep(Fraction(1, 2))     # deliveries refused by a stopping consumer are rejected after its 0.1 s pause
+        out["places"] = {}
+        for qn in ("qa", "qb"):
+            for i, v in w.places(qn).items():
+                out["places"].setdefault(i, []).extend(v)
+        out["open_consumers"] = sum(len(ch.consumers) for ch in w.srv.channels)
+        out["log"] = [x for ch in w.srv.channels for x in ch.log]
+
+    try:
+        run_async(main)
+    except Deadlock:
+        S.check("run-returns", False, info="deadlock")
+        return
+    S.check("run-returns", out["returned"])
+    if not out["returned"] or out["elapsed"] is None:
+        S.cover("signal-before-handler-registration")
+        return
+    S.cover("stopped")
+    S.check("returns-within-graceful-period-plus-slack", out["elapsed"] <= g + 6 + Fraction(1, 100), info=str(out["elapsed"]))
+    for i in range(n_msgs):
+        mid = f"m{i}"
+        names = place_names(out["places"], mid)
+        S.check("at-most-one-copy", len(names) <= 1, info=f"{mid}: {names}")
+        if "processing" in names:
+            S.tag("stuck_message_left_the_local_buffer", any(e[0] == "deliver" and e[1] == mid for e in out["consumer_log"]))
+            S.tag("stuck_message_reached_the_runner", any(e[0] == "handed-to-runner" and e[1] == mid for e in out["consumer_log"]))
+        S.check("nothing-stays-unacknowledged", "processing" not in names,
+                info=f"{mid} is still unacknowledged on the channel after the worker returned (runs={runs}); consumer log: {out['consumer_log']}; channel log: {out['log'][15:]}")
+        if names == []:
+            S.cover("gone")
+            S.check("vanished-message-was-completed", i in runs and kind == 0, info=f"{mid}: runs={runs}")
+        elif names == ["waiting"]:
+            S.cover("returned")
+            msg = out["places"][mid][0][1]
+            S.check("returned-message-keeps-its-retry-counter", msg.parameters.retries.already_tried == 0)
+        elif names == ["delayed"]:
+            S.cover("requeued")
+            S.check("retry-only-after-a-failed-run", i in runs and kind == 1)
+
+
 def h03_redis_stop(S, max_step=140):
     """Worker.run() on the fake Redis server, stop signal at every loop step."""
     from fakes import redis as fr
@@ -277,6 +377,27 @@ def h03_redis_stop(S, max_step=140):
 
 
 HARNESSES = [
+    Harness(
+        name="H03-stop-saturated", scenario=h03_stop, workers=16, budget_s=900,
+        params={"quick": {"n_msgs": 2, "kinds": (0, 1), "tasks_limit": 1, "results": (False,)},
+                "thorough": {"n_msgs": 3, "kinds": (0, 1, 2, 3), "tasks_limit": 1, "max_step": 140}},
+        bounds={"as H03-stop-mem": "with tasks_limit = 1 and 2 (quick) / 3 (thorough) messages: the stop request also lands while the consumer "
+                                   "loop holds a message and waits, paused, for a free slot"},
+        functions=["_runner.py:_Runner._run_consumer", "worker.py:Worker.run", "connections/in_memory/consumer.py:_InMemoryConsumer.pause"],
+        covers=["stopped", "gone", "returned"],
+        stubs=["signal delivery = the captured handler is called at the start of loop iteration k"],
+    ),
+    Harness(
+        name="H03-rabbit-stop", scenario=h03_rabbit_stop, workers=16, budget_s=900,
+        params={"quick": {"max_step": 120}, "thorough": {"max_step": 200, "qos_turns": (1, 2, 3, 5)}},
+        bounds={"stop request": "SIGTERM handler at every loop step 1..120 (quick) / 1..200 (thorough)", "queues": "2, with 3 messages, tasks_limit 2",
+                "basic.qos round trip": "1 or 3 loop turns (quick); 1, 2, 3, 5 (thorough)", "actor": "5 ms, succeeds / fails with a retry left"},
+        functions=["_runner.py:_Runner._run_consumer", "connections/rabbitmq/consumer.py:_RabbitConsumer.pause",
+                   "connections/rabbitmq/consumer.py:_RabbitConsumer.unpause", "connections/rabbitmq/consumer.py:_RabbitConsumer.finish"],
+        covers=["stopped", "gone", "returned"],
+        stubs=["fake AMQP channel; redelivery of unacknowledged messages on channel close is the server's business and not modelled: "
+               "a message left unacknowledged counts as lost for the run"],
+    ),
     Harness(
         name="H03-stop-mem", scenario=h03_stop, workers=16, budget_s=900,
         params={"quick": {"n_msgs": 1}, "thorough": {"n_msgs": 2}},
